@@ -121,8 +121,9 @@ Structured(d) ==
 
 
 (* payload sets for the .cfg files (lengths 0,1,3,4 over {0,1}) *)
-PayQuick == { <<>>, <<1>>, <<0>>, <<1,0,1>>, <<0,0,1>>, <<1,0,1,1>>, <<1,0,0,0>> }
+PayQuick == { <<>>, <<1>>, <<1,0,1>>, <<0,0,1>>, <<1,0,1,1>>, <<1,0,0,0>> }
 PayAll   == { <<>> } \cup [1..1 -> {0,1}] \cup [1..3 -> {0,1}] \cup [1..4 -> {0,1}]
+PayF8q   == { <<>>, <<1,0,1>>, <<1,1,1,1>>, <<1,0,1,0>> }
 PayF8    == { <<>>, <<1,0,1>>, <<1,1,1>>, <<1,0,1,0>>, <<0,0,1,1>> }
 
 Init ==
@@ -301,19 +302,25 @@ Summary(dd, p, nold) ==
               minDiff |-> IF dif = {} THEN Inf ELSE Min(dif)]]
 
 (* sm = Summary(d.data, p, nold); dv = DValid(d); Ld = Len(d.data) (0 if absent);  *)
-(* oldr = what a load of d returns when it succeeds                                *)
-Closed(sm, dv, oldr, Ld, p, dl, hw, b, S, t) ==
-    LET n == Len(p) IN
+(* n = Len(p).  Result: which record the load returns - "old", "new" or "none".    *)
+ImageLen(Ld, b, S) == Max({Ld} \cup { Min({LastPos(s), Max({Ld, b})}) : s \in S })
+
+ClosedW(sm, dv, olddl, Ld, n, dl, hw, b, S, t) ==
     IF ~hw \/ 0 \notin S THEN
-        IF dv /\ oldr.dl >= t /\ (\A s \in S : sm[s].minDiff > b) THEN oldr ELSE None
+        IF dv /\ olddl >= t /\ (\A s \in S : sm[s].minDiff > b) THEN "old" ELSE "none"
     ELSE
-        IF dl < t THEN None
-        ELSE LET Lv == Max({Ld, b})
-                 Lp == Max({Ld} \cup { Min({LastPos(s), Lv}) : s \in S })
-             IN IF Lp < n THEN None
-                ELSE IF n = 0 \/ (\A s \in 0..Sec(n) : IF s \in S THEN sm[s].maxBad <= b ELSE ~sm[s].badZ)
-                     THEN [ok |-> TRUE, data |-> p, dl |-> dl]
-                     ELSE None
+        IF dl < t THEN "none"
+        ELSE IF ImageLen(Ld, b, S) < n THEN "none"
+        ELSE IF n = 0 \/ (\A s \in 0..Sec(n) : IF s \in S THEN sm[s].maxBad <= b ELSE ~sm[s].badZ)
+             THEN "new"
+             ELSE "none"
+
+(* oldr = what a load of d returns when it succeeds *)
+Closed(sm, dv, oldr, Ld, p, dl, hw, b, S, t) ==
+    LET w == ClosedW(sm, dv, oldr.dl, Ld, Len(p), dl, hw, b, S, t) IN
+    IF w = "old" THEN oldr
+    ELSE IF w = "new" THEN [ok |-> TRUE, data |-> p, dl |-> dl]
+    ELSE None
 
 ClosedFormOK ==
     (sv.on /\ sv.clean /\ sv.adv /\ HdrAtomic) =>
